@@ -173,6 +173,28 @@ def dag_jobs(shape, ext=("x", "y"), early=False):
         yield IR.prog("top", nodes, bound=bound), provided, "".join(assign) + ("+early" if early else "")
 
 
+def dag_jobs_precedence(shape, ext=("x", "y")):
+    """Assignments in which an external name has SEVERAL sources, so that the resolution order
+    PROVIDED > BOUND > DEFAULT decides: B = bound + default, P = provided + default, Q = provided + bound
+    (plus plain b / p for the other name).  Every second job uses python values that are None or falsy
+    (None, 0, "", False) as the winning bound / provided value."""
+    used = [p for p in ext if any(p in n[1] for n in shape)]
+    specials = ["~none", "0", "", "False"]
+    k = 0
+    for assign in itertools.product("BPQbp", repeat=len(used)):
+        if not any(c in "BPQ" for c in assign):
+            continue
+        k += 1
+        src = dict(zip(used, assign))
+        dparams = {p for p, s in src.items() if s in "BP"}
+        nodes = [IR.func(nm, ins, os, defaults=[p for p in ins if p in dparams]) for nm, ins, os in shape]
+        bval = specials[k % 4] if k % 2 == 0 else None
+        pval = specials[(k // 2) % 4] if k % 3 == 0 else None
+        bound = [[p, bval if bval is not None else f"bound.top.{p}"] for p, s in src.items() if s in "BQb"]
+        provided = [[p, pval if pval is not None else f"in.{p}"] for p, s in src.items() if s in "PQp"]
+        yield IR.prog("top", nodes, bound=bound), provided, "".join(assign) + f"/b={bval}/p={pval}"
+
+
 def enum_gated(cyclic=False, stride=1, offset=0):
     """Small-scope gated family: chain A(x)->a, B(a)->b, C(b)->c (optionally A also reads c: a cycle),
     one gate G over every input choice, target set, kind, default_open, list position and decision
